@@ -25,7 +25,7 @@ def run(job):
     p, n = job
     w = free.get()
     try:
-        patch = f'/verif/audit/{p}/{n}/patch.diff'
+        patch = f'{os.environ.get("AUDIT_DIR", "/verif/audit")}/{p}/{n}/patch.diff'
         a = subprocess.run(['git', '-C', w, 'apply', patch], capture_output=True, text=True)
         if a.returncode:
             return f'{p}/{n} DOES-NOT-APPLY {a.stderr[:100]!r}'
